@@ -36,8 +36,9 @@ ASSUMPTIONS = [
     "linearity of the builders / extractors is itself checked only on the enumerated generic pairs (additivity, "
     "homogeneity over the 4 strengths); the for-all conclusion over H, J, K and generators rests on it",
     "verdicts are asserted only outside the band (atol/10, 10*atol) around the tolerance",
-    "systems: 1 qubit (Pauli), 1 qutrit (Gell-Mann), 2 qubits; thorough adds generalised Gell-Mann and qubit (x) qutrit; other "
-    "bases with B_0 = I/sqrt(d) not explored",
+    "systems: 1 qubit (Pauli), 1 qutrit (Gell-Mann), 2 qubits; thorough adds the generalised Gell-Mann qutrit; d > 4 and other "
+    "bases with B_0 = I/sqrt(d) not explored (at d = 6 the library's own 1e-13 truncation of HS entries moves a rank-one K "
+    "by about atol, i.e. into the band where no verdict is asserted)",
     "jump operator sets are sets (no repetitions, one order); for 2 qubits only sets of size <= 3 (thorough: 4) plus one nested chain up to 16",
     "calc_proj_ineq_constraint is additionally compared with the documented K' = U max(Lambda,0) U^+ (tutorial), which is more "
     "than 'returns a PSD K'; that comparison has its own signature (k-not-psd-part-of-input)",
@@ -47,10 +48,8 @@ BOUNDS = {
     "quick": "systems Q1, Q3, Q2 (1 qubit, 1 qutrit, 2 qubits); all H / J / K / generator bases complete; jump pools of 7 (Q1, every "
              "set of size 1..4), 13 (Q3, every set of size 1..9) and 21 (Q2, every set of size 1..3 + one nested chain of sizes "
              "4..16) operators; K alphabet = all spectra x {id, fourier, generic} eigenbases; 3 tolerances; 4 times x 4 strengths",
-    "thorough": "quick + Q2 jump sets of size 4 + Q3g (qutrit, generalised Gell-Mann order; complete) + Q6 (qubit (x) qutrit, d = 6): for Q6 the builders "
-                "are walked over the complete H and J bases and the generic representatives only (the two K-space bases of 1225 "
-                "elements are left out), the extractors over 5 unit matrices + the generic generators only, jump sets of size "
-                "1..2 from a pool of 41 + a nested chain of sizes 3..36; verdict / expm / proj / var complete as for the others",
+    "thorough": "quick + every Q2 jump set of size 4 + system Q3g (qutrit in the generalised Gell-Mann basis, all families complete) "
+                "+ 8 instead of 3 generic representatives for the builders / extractors",
 }
 EXHAUSTIVE = {"quick": True, "thorough": True}
 CASE_TIMEOUT = 900
@@ -59,6 +58,7 @@ SCALES = (1e-2, 1e-1, 1.0, 1e1)
 ATOLS = (None, 1e-9, 1e-5)
 MODES = ("hermitian_basis", "comp_basis")
 REL = 1e-9
+NGEN, NGEN_QUICK = 8, 3     # generic representatives per builder / extractor: the item lists end with NGEN of them, quick walks the first 3
 
 
 def el():
@@ -324,13 +324,6 @@ def check_mats(agg, out, info, L, Href, Jref, Kref, tol, ctx):
 # ------------------------------------------------------------------------------------ family: build
 
 def build_items(info):
-    it = build_items_all(info)
-    if info["tag"] == "Q6":      # d = 6: the K-space bases (2 x 1225 elements) are left out, see BOUNDS
-        it = [x for x in it if x[0] in ("h", "hk_h", "hjk_h", "hjk_j", "generic")]
-    return it
-
-
-def build_items_all(info):
     d, n = info["d"], info["n"]
     it = []
     for i in range(d * d):
@@ -348,7 +341,7 @@ def build_items_all(info):
         it.append(("hjk_j", i, (i + 1) % 4))
     for i in range(n * n):
         it.append(("hjk_k", i, (i + 2) % 4))
-    for g in range(3):
+    for g in range(NGEN):
         for s in range(4):
             it.append(("generic", g, s))
     return it
@@ -367,6 +360,7 @@ def run_builder(agg, out, info, which, H, J, K, physical, ctx):
     out.traces += 1
     ok, hs = A.call(getattr(m, "generate_hs_from_" + which), c, *args)
     out.ops += 1
+    hs_lib = hs if ok else None
     if not ok:
         agg.fail("generate_hs_from_%s:raises:%s" % (which, excsig(hs)), "%s: %s" % (ctx, A.fmt_exc(hs)))
     else:
@@ -377,7 +371,7 @@ def run_builder(agg, out, info, which, H, J, K, physical, ctx):
     out.ops += 1
     if not ok:
         if physical and isinstance(L, ValueError) and "physically" in str(L):
-            agg.fail("generate_effective_lindbladian_from_%s:rejected-physical" % which, "%s: %s" % (ctx, A.fmt_exc(L)))
+            rejected_physical(agg, out, info, hs_lib, "generate_effective_lindbladian_from_%s:rejected-physical" % which, "%s: %s" % (ctx, A.fmt_exc(L)))
         else:
             agg.fail("generate_effective_lindbladian_from_%s:raises:%s" % (which, excsig(L)), "%s: %s" % (ctx, A.fmt_exc(L)))
         return ref, None
@@ -462,17 +456,14 @@ def jump_pool(info, seed):
         E = np.zeros((dd, dd), dtype=np.complex128)
         E[i, j] = 1
         return E
-    sm, sp, I2, I3 = unit(0, 1, 2), unit(1, 0, 2), np.eye(2, dtype=np.complex128), np.eye(3, dtype=np.complex128)
+    sm, sp, I2 = unit(0, 1, 2), unit(1, 0, 2), np.eye(2, dtype=np.complex128)
     Jm = math.sqrt(2) * (unit(0, 1, 3) + unit(1, 2, 3))
     if d == 2:
         ops += [("sigma_minus", sm), ("sigma_plus", sp)]
     elif d == 3:
         ops += [("spin1_lowering", Jm), ("E02", unit(0, 2)), ("spin1_raising", Jm.conj().T)]
-    elif d == 4:
-        ops += [("sm(x)I", np.kron(sm, I2)), ("I(x)sm", np.kron(I2, sm)), ("sm(x)sm", np.kron(sm, sm)), ("sm(x)sp", np.kron(sm, sp))]
     else:
-        ops += [("sm(x)I", np.kron(sm, I3)), ("I(x)spin1_lowering", np.kron(I2, Jm)), ("sm(x)spin1_lowering", np.kron(sm, Jm)),
-                ("sp(x)spin1_lowering", np.kron(sp, Jm))]
+        ops += [("sm(x)I", np.kron(sm, I2)), ("I(x)sm", np.kron(I2, sm)), ("sm(x)sm", np.kron(sm, sm)), ("sm(x)sp", np.kron(sm, sp))]
     ops += [("P0", unit(0, 0)), ("generic", 0.5 * R.generic_matrix(d, seed, salt=7))]
     Bs, CBs = info["Bs"], info["CBs"]
     tab = []
@@ -495,21 +486,18 @@ def jump_pool(info, seed):
 
 def jump_sizes(tag, tier):
     q2 = range(1, 4) if tier == "quick" else range(1, 5)
-    return {"Q1": range(1, 5), "Q3": range(1, 10), "Q3g": range(1, 10), "Q2": q2, "Q6": range(1, 3)}[tag]
+    return {"Q1": range(1, 5), "Q3": range(1, 10), "Q3g": range(1, 10), "Q2": q2}[tag]
 
 
 def jump_cases(tag, npool, tier):
     cases = []
-    per = {"Q1": 200, "Q3": 400, "Q3g": 400, "Q2": 100, "Q6": 20}[tag]
+    per = {"Q1": 200, "Q3": 400, "Q3g": 400, "Q2": 100}[tag]
     for k in jump_sizes(tag, tier):
         tot = math.comb(npool, k)
         for lo in range(0, tot, per):
             cases.append({"sys": tag, "size": k, "lo": lo, "hi": min(tot, lo + per)})
     if tag == "Q2":
         cases.append({"sys": tag, "size": 0, "lo": 4, "hi": 17})   # nested chain of sizes 4..16: ladder / projector / generic first
-    if tag == "Q6":
-        for lo in range(3, 37, 6):
-            cases.append({"sys": tag, "size": 0, "lo": lo, "hi": min(37, lo + 6)})
     return cases
 
 
@@ -582,12 +570,14 @@ def ex_jump(p, seed):
                 else:
                     agg.fail("%s:not-gksl:mismatch" % fn, "%s: distance to GKSL %.3g" % (ctx, dist(L.hs, want)))
         # a generator given by jump operators is physical by construction: the default constructor path must accept it
+        hs_lib = L.hs if ok else None
         ok, L = A.call(getattr(m, fn), c, ops)
         out.ops += 1
         if ok:
             out.count("jump_physical_accepted")
         elif isinstance(L, ValueError) and "physically" in str(L):
-            agg.fail("%s:rejected-physical%s" % (fn, ":j-part-uses-c-not-cdagc" if inherits else ""), "%s: %s" % (ctx, A.fmt_exc(L)))
+            rejected_physical(agg, out, info, hs_lib, "%s:rejected-physical%s" % (fn, ":j-part-uses-c-not-cdagc" if inherits else ""),
+                              "%s: %s" % (ctx, A.fmt_exc(L)))
         else:
             agg.fail("%s:raises:%s" % (fn, excsig(L)), "%s: %s" % (ctx, A.fmt_exc(L)))
     agg.flush()
@@ -599,9 +589,7 @@ def ex_jump(p, seed):
 def extract_items(info):
     d2 = info["d"] ** 2
     it = [("unit", a * d2 + b, 2) for a in range(d2) for b in range(d2)]
-    if info["tag"] == "Q6":      # d = 6: only five of the 1296 units, see BOUNDS
-        it = [("unit", a * d2 + b, 2) for a, b in ((0, 0), (0, 1), (1, 0), (1, 1), (d2 - 1, d2 - 1))]
-    it += [("generic", g, s) for g in range(3) for s in range(4)]
+    it += [("generic", g, s) for g in range(NGEN) for s in range(4)]
     return it
 
 
@@ -759,6 +747,25 @@ def band(value, atol):
     return None
 
 
+def physical_band(info, hs):
+    """reference verdict (default atol) on an HS matrix the library produced itself: True / False / None = inside the band
+    (the builders zero HS entries below atol, which can move an eigenvalue of K by about atol)"""
+    from quara.settings import Settings
+    atol = Settings.get_atol()
+    _, _, K = decompose(np.asarray(hs, dtype=np.float64), info)
+    tp = band(float(np.abs(np.asarray(hs)[0]).max()), atol)
+    cp = band(max(0.0, -R.min_eig(K)), atol)
+    return True if (tp is True and cp is True) else False if (tp is False or cp is False) else None
+
+
+def rejected_physical(agg, out, info, hs, sig, msg):
+    """the library refused an object that is physical by construction: a violation unless its own HS matrix is in the band"""
+    if hs is not None and physical_band(info, hs) is None:
+        out.count("physical_by_construction_in_band_not_asserted")
+        return
+    agg.fail(sig, msg)
+
+
 def ex_verdict(p, seed):
     from quara.objects.effective_lindbladian import EffectiveLindbladian
     from quara.settings import Settings
@@ -862,8 +869,12 @@ def ex_expm(p, seed):
         ok, L = A.call(m.generate_effective_lindbladian_from_hk, c, H, K)
         out.ops += 1
         if not ok:
-            agg.fail("generate_effective_lindbladian_from_hk:%s" % ("rejected-physical" if "physically" in str(L) else "raises:" + excsig(L)),
-                     "%s: %s" % (ctx, A.fmt_exc(L)))
+            if "physically" in str(L):
+                ok2, hs_lib = A.call(m.generate_hs_from_hk, c, H, K)
+                rejected_physical(agg, out, info, hs_lib if ok2 else None, "generate_effective_lindbladian_from_hk:rejected-physical",
+                                  "%s: %s" % (ctx, A.fmt_exc(L)))
+            else:
+                agg.fail("generate_effective_lindbladian_from_hk:raises:" + excsig(L), "%s: %s" % (ctx, A.fmt_exc(L)))
             continue
         if dist(L.hs, ref) > tol_of(ref):
             agg.fail("generate_effective_lindbladian_from_hk:not-gksl", "%s: %.3g" % (ctx, dist(L.hs, ref)))
@@ -1013,10 +1024,12 @@ def ex_proj(p, seed):
             if ok:
                 ok, P2 = A.call(L2.calc_proj_ineq_constraint)
                 out.ops += 1
-                if not ok:
+                if not ok and "physically" in str(P2):
                     sig = "calc_proj_ineq_constraint:rejects-own-projection-of-physical" + \
                         (":inherits-calc_j_mat-basis-from-1" if inherits else "") + (":k-changed:" + cls if kchanged else "")
-                    agg.fail(sig if "physically" in str(P2) else "calc_proj_ineq_constraint:raises:%s:%s" % (excsig(P2), cls), "%s: %s" % (ctx, A.fmt_exc(P2)))
+                    rejected_physical(agg, out, info, P.hs, sig, "%s: %s" % (ctx, A.fmt_exc(P2)))
+                elif not ok:
+                    agg.fail("calc_proj_ineq_constraint:raises:%s:%s" % (excsig(P2), cls), "%s: %s" % (ctx, A.fmt_exc(P2)))
     agg.flush()
     return out
 
@@ -1105,8 +1118,12 @@ def ex_var(p, seed):
                 ok, L4 = A.call(m.convert_var_to_effective_lindbladian, c, np.array(v, dtype=np.float64), on_para_eq_constraint=flag)
                 out.ops += 1
                 out.count("var_physical_round_trip")
-                if not ok:
-                    agg.fail("convert_var_to_effective_lindbladian:rejects-physical:on_para_eq_constraint=%s" % flag, "%s: %s" % (ctx, A.fmt_exc(L4)))
+                if not ok and "physically" in str(L4):
+                    rebuilt = L2.hs if isinstance(L2, EffectiveLindbladian) else None
+                    rejected_physical(agg, out, info, rebuilt, "convert_var_to_effective_lindbladian:rejects-physical:on_para_eq_constraint=%s" % flag,
+                                      "%s: %s" % (ctx, A.fmt_exc(L4)))
+                elif not ok:
+                    agg.fail("convert_var_to_effective_lindbladian:raises:%s" % excsig(L4), "%s: %s" % (ctx, A.fmt_exc(L4)))
         agg.dig.append(np.asarray(v))
     agg.flush()
     return out
@@ -1115,12 +1132,12 @@ def ex_var(p, seed):
 # ------------------------------------------------------------------------------------ runner interface
 
 CHUNKS = {
-    "build": {"Q1": 60, "Q3": 24, "Q3g": 24, "Q2": 10, "Q6": 2},
-    "extract": {"Q1": 16, "Q3": 6, "Q3g": 6, "Q2": 3, "Q6": 1},
-    "verdict": {"Q1": 40, "Q3": 12, "Q3g": 12, "Q2": 6, "Q6": 2},
-    "expm": {"Q1": 40, "Q3": 20, "Q3g": 20, "Q2": 10, "Q6": 2},
-    "proj": {"Q1": 64, "Q3": 16, "Q3g": 16, "Q2": 8, "Q6": 3},
-    "var": {"Q1": 40, "Q3": 60, "Q3g": 60, "Q2": 60, "Q6": 200},
+    "build": {"Q1": 60, "Q3": 24, "Q3g": 24, "Q2": 10},
+    "extract": {"Q1": 16, "Q3": 6, "Q3g": 6, "Q2": 3},
+    "verdict": {"Q1": 40, "Q3": 12, "Q3g": 12, "Q2": 6},
+    "expm": {"Q1": 40, "Q3": 20, "Q3g": 20, "Q2": 10},
+    "proj": {"Q1": 64, "Q3": 16, "Q3g": 16, "Q2": 8},
+    "var": {"Q1": 40, "Q3": 60, "Q3g": 60, "Q2": 60},
 }
 ITEMS = {
     "build": lambda info, seed: build_items(info),
@@ -1133,7 +1150,7 @@ ITEMS = {
 
 
 def systems(tier):
-    return ["Q1", "Q3", "Q2"] if tier == "quick" else ["Q1", "Q3", "Q2", "Q3g", "Q6"]
+    return ["Q1", "Q3", "Q2"] if tier == "quick" else ["Q1", "Q3", "Q2", "Q3g"]
 
 
 def families(tier, seed):
@@ -1146,6 +1163,8 @@ def families(tier, seed):
                 cases += jump_cases(tag, len(jump_pool(info, seed)), tier)
                 continue
             n = len(ITEMS[fam](info, seed))
+            if tier == "quick" and fam in ("build", "extract"):
+                n -= 4 * (NGEN - NGEN_QUICK)      # the generic representatives are the tail of the list, 4 strengths each
             ch = CHUNKS[fam][tag]
             cases += [{"sys": tag, "lo": lo, "hi": min(n, lo + ch)} for lo in range(0, n, ch)]
         fams.append((fam, cases))
